@@ -2,7 +2,7 @@
 //! real `Parser` on top of any simulated environment.
 
 use crate::clock::{self, BudgetExceeded, ContractViolation};
-use crate::inputs::{InputKind, SimRing, SimRle, SimSlice, SimSource, Ticking};
+use crate::inputs::{InputKind, Metered, SimRing, SimRle, SimSlice, SimSource, Ticking};
 use saphyr_parser::{BufferedInput, Event, Input, Parser, ScanError, Span, StrInput};
 use std::borrow::Cow;
 use std::cell::RefCell;
@@ -224,6 +224,12 @@ pub fn with_parser<V: ParserVisitor>(kind: InputKind, prep: &Prepared, v: V) -> 
         }
         InputKind::Ring(cap, pol) => {
             build!(Parser::new(SimRing::new(prep.chars.clone(), prep.eof_at, cap, pol)).keep_tags(prep.keep_tags))
+        }
+        InputKind::MeteredStr => {
+            if prep.eof_at.is_some() {
+                clock::probe(clock::Probe::SourceEofEarly);
+            }
+            build!(Parser::new(Metered::new(StrInput::new(&prep.cut))).keep_tags(prep.keep_tags))
         }
         InputKind::Rle => build!(Parser::new(SimRle::from_notation(&prep.full)).keep_tags(prep.keep_tags)),
         InputKind::Slice(cap) => {
